@@ -764,7 +764,7 @@ theorem pushAll_quiet {xs : List UInt8} : ∀ {d d1 : Dec}, d.quiet xs = some d1
       simp only [pushAll, push, heq, ih h, List.length_cons, List.replicate_succ]
     · cases h
 
-theorem pushAll_append (xs ys : List UInt8) : ∀ (d : Dec),
+theorem pushAll_appendR (xs ys : List UInt8) : ∀ (d : Dec),
     Dec.pushAll d (xs ++ ys) =
       ((Dec.pushAll (Dec.pushAll d xs).1 ys).1, (Dec.pushAll d xs).2 ++ (Dec.pushAll (Dec.pushAll d xs).1 ys).2) := by
   induction xs with
@@ -781,7 +781,7 @@ theorem Delivers.pushAll {d d' : Dec} {bytes p : List UInt8} (h : Delivers d byt
     Dec.pushAll d bytes = (d', List.replicate (bytes.length - 1) Out.none ++ [Out.msg p]) := by
   obtain ⟨xs, y, d1, e, hq, hp, hst, hdata⟩ := h
   subst e
-  rw [pushAll_append, pushAll_quiet hq]
+  rw [pushAll_appendR, pushAll_quiet hq]
   simp [Dec.pushAll, push_ready hp hst, hdata]
 
 end Dec
